@@ -4,6 +4,7 @@
 import AdaptixModel.Protocol
 import AdaptixModel.Morph.Enum
 import AdaptixModel.Morph.Flag
+import AdaptixModel.Morph.EnumBinding
 
 namespace Adaptix.Ops.C18
 open Lean Adaptix.Protocol Adaptix.Enum
@@ -143,9 +144,65 @@ def pyAliases : List Member → List (String × PyVal) → List EnumEntry
     | some m => { name := n, value := v, aliasOf := some m.name } :: pyAliases canon rest
     | none => { name := n, value := v, aliasOf := none } :: pyAliases (canon ++ [⟨n, v⟩]) rest
 
+/-! ### op `bind`: which provider of the recipe serves each request of a history on one retort -/
+
+def decFamily (j : Json) : Except String Family := do
+  match ← fieldStr j "family" with
+  | "enum" => return .enum
+  | "flag" => return .flag
+  | f => throw s!"bad family {f}"
+
+/-- class `i` as a field is the field `f<i>` of its own holder dataclass `H<i>` (harness convention) -/
+def fieldNameOf (i : Nat) : String := s!"f{i}"
+
+def decBindPred (j : Json) : Except String BindPred := do
+  let cs ← (← fieldArr j "cs").mapM asNat
+  let form ← fieldStr j "form"
+  match form, cs with
+  | "cls", [c] => return .type c
+  | "P", [c] => return .type c
+  | "Ptuple", cs => return .types cs
+  | "str", [c] => return .fieldName (fieldNameOf c)
+  | "re", [c] => return .fieldName (fieldNameOf c)      -- the regex `f<i>$` matches exactly that name
+  | "Ppath", [c] => return .path c (fieldNameOf c)
+  | _, _ => throw s!"bad predicate form {form}"
+
+def decBound (j : Json) : Except String Bound := do
+  let fam ← decFamily j
+  let kind ← fieldStr j "kind"
+  let preds ← (← fieldArr j "preds").mapM decBindPred
+  -- the options of the provider play no part in the choice
+  let prov ← match fam, kind with
+    | .enum, "exact" => pure ReprProvider.enumExact
+    | .enum, "name" => pure (ReprProvider.enumName {})
+    | .enum, "value" => pure (ReprProvider.enumValue .any)
+    | .flag, "exact" => pure ReprProvider.flagExact
+    | .flag, "list" => pure (ReprProvider.flagList {} {})
+    | _, _ => throw s!"bad provider kind {kind}"
+  return { checker := boundByAny preds, provider := prov }
+
+def handleBind (j : Json) : Except String Json := do
+  let fams ← (← fieldArr j "classes").mapM decFamily
+  let recipe ← (← fieldArr j "providers").mapM decBound
+  let history ← (← fieldArr j "history").mapM fun r => do
+    let i ← fieldNat r "cls"
+    let fam ← match fams[i]? with
+      | some f => pure f
+      | none => throw s!"history: no class {i}"
+    let site : Site := { cls := i, family := fam,
+                         field := if ← fieldBool r "field" then some (i, fieldNameOf i) else none }
+    let dir ← match ← fieldStr r "dir" with
+      | "loader" => pure Dir.loader
+      | "dumper" => pure Dir.dumper
+      | d => throw s!"bad direction {d}"
+    return ((site, dir) : Key)
+  return listJ ((serve recipe [] history).2.map fun a =>
+    match a with | some i => natJ i | none => Json.null)
+
 def handle : Protocol.Handler := fun j => do
   let op ← fieldStr j "op"
   match op with
+  | "bind" => handleBind j
   | "enum" =>
     let c ← decEnumClass j
     let p ← field j "provider"
